@@ -381,7 +381,7 @@ func TestVerifC17Ipset(t *testing.T) {
 				ss[i] = u[x].s
 			}
 			c.Violation("ipset:"+vkListKey(u, list), v, map[string]any{"list": ss})
-			return c.NumViolations() < 20
+			return c.NumViolations() < 3
 		}
 		// non-trivial: >=2 parsable entries and the probes are split (some in, some out)
 		if nvalid >= 2 && inN > 0 && outN > 0 {
